@@ -345,38 +345,26 @@ func c11Custom(t *testing.T, sc *world.Scenario, out *Outcome) {
 					}
 					okBegin, _ := eval(begin)
 					okNow, after := eval(model)
-					// The contract does not say whether a condition on a key that an earlier operation of
-					// the same batch writes is judged against the stored state or against the batch's own
-					// pending writes (the backend never issues such a batch). For those batches only, the
-					// other reading is admissible as well: every condition against the state before the
-					// batch, effects in order.
+					// Conditions are judged in batch order, each seeing the earlier operations of its batch (all
+					// three engines read their own pending writes). One shape is left out: a compare-and-delete
+					// through an iterator of a key that the same batch has written before. The iterator refers
+					// to a version the batch itself superseded; the contract allows "value-equal or version-
+					// equal", the engines differ (Badger compares the version of its own pending write, which
+					// coincides with the iterated one exactly when that was the newest commit), and the backend
+					// never issues such a batch. It is not judged for its conditions; it must still apply
+					// entirely or not at all, which the following reads and the final scan verify.
 					selfConflict := false
-					seenKey := map[string]bool{}
+					wroteKey := map[string]bool{}
 					for _, b := range use {
-						if (b.kind == "pine" || b.kind == "cas" || b.kind == "delcur") && seenKey[b.k] {
+						if b.kind == "delcur" && wroteKey[b.k] {
 							selfConflict = true
 						}
-						seenKey[b.k] = true
-					}
-					evalSnap := func(base map[string]string) bool {
-						for _, b := range use {
-							switch b.kind {
-							case "pine", "cas":
-								if !condHolds(base, b.kind, b.k, b.old) {
-									return false
-								}
-							case "delcur":
-								if cur, ok := base[b.k]; !ok || cur != b.old {
-									return false
-								}
-							}
+						if b.kind == "put" || b.kind == "pine" || b.kind == "cas" {
+							wroteKey[b.k] = true
 						}
-						return true
 					}
-					okBeginSnap, okNowSnap := okBegin, okNow
 					if selfConflict {
-						okBeginSnap, okNowSnap = evalSnap(begin), evalSnap(model)
-						out.probe("batch-condition-on-own-pending-write")
+						out.probe("compare-and-delete-of-own-pending-write(not judged)")
 					}
 					// a key of the batch was modified by someone else while the batch was open:
 					// an optimistic engine may abort it (reported as a failed condition or as an error)
@@ -408,7 +396,7 @@ func c11Custom(t *testing.T, sc *world.Scenario, out *Outcome) {
 					desc := op.Val
 					switch {
 					case err == nil:
-						if !okNow && !(selfConflict && okNowSnap) {
+						if !okNow && !selfConflict {
 							viol("batch-applied-despite-failed-condition", "batch {%s} committed although a condition does not hold (state %v)", desc, model)
 						}
 						if !okNow {
@@ -439,12 +427,14 @@ func c11Custom(t *testing.T, sc *world.Scenario, out *Outcome) {
 						}
 						out.probe("batch-applied")
 					case errors.Is(err, storage.ErrCASFailed):
-						if okNow && okBegin && okNowSnap && okBeginSnap && !touched {
+						if okNow && okBegin && !touched && !selfConflict {
 							viol("batch-refused-although-conditions-hold", "batch {%s} reported a failed condition although every condition holds (state %v)", desc, model)
 						}
 						out.probe("batch-condition-failed")
 					default:
-						if (!okNow || !okBegin) && (!okNowSnap || !okBeginSnap) {
+						if selfConflict {
+							// not judged
+						} else if !okNow || !okBegin {
 							miss := ""
 							for _, b := range use {
 								if b.kind == "cas" {
